@@ -1727,11 +1727,14 @@ def GET_EYE(
         # and crossing amplitude
         cond = (input > v25) & (input < v75)
 
-        ty = np.vstack([t[cond], input[cond]]).T
+        # amplitudes are normalized to the distance between levels, so that the clustering
+        # of the (t, y) points does not depend on the unit/scale of the signal
+        ty = np.vstack([t[cond], (input[cond] - state_0) / d01]).T
 
         # We get centroids of 2 clusters for t,y
         kmeans.fit(ty)
         ty_c = kmeans.cluster_centers_
+        ty_c[:,1] = ty_c[:,1] * d01 + state_0 # back to the units of the signal
 
         left = np.argmin(ty_c[:,0])
         right = np.argmax(ty_c[:,0])
